@@ -36,7 +36,34 @@ def load_variants():
                 props = [p for p in meta.get("caught_by", []) if p]
                 if meta.get("valid") and props:
                     out.append({"id": "seeded-" + name, "props": props, "patch": pp, "expect": "fire", "rule": None, "edits": []})
+    # behaviour-preserving refactorings written by independent sub-agents (confirmed and filed under /verif/twins): every
+    # check must stay silent on each of them
+    tdir = os.path.join(VERIF, "twins")
+    if os.path.isdir(tdir):
+        for name in sorted(os.listdir(tdir)):
+            mp = os.path.join(tdir, name, "meta.json")
+            pp = os.path.join(tdir, name, "patch.diff")
+            if os.path.isfile(mp) and os.path.isfile(pp):
+                try:
+                    meta = json.load(open(mp))
+                except ValueError:
+                    continue
+                if meta.get("valid"):
+                    out.append({"id": "twin-" + name, "props": twin_props(meta, pp), "patch": pp, "expect": "silent", "rule": None, "edits": []})
     return out
+
+
+ALL_PIDS = "C01 C02 C03 C04 C05 C06 C07 C08 C09 C10 C11 C13 C14 C15 C16 C17 C18 C19".split()
+
+
+def twin_props(meta, patch):
+    """a twin is re-run for its own property and for every property whose check reported anything on it when it was filed
+    (so that a false alarm, once corrected, stays corrected)"""
+    props = [meta.get("property")] if meta.get("property") in ALL_PIDS else []
+    for pid in meta.get("false_alarms_at_first", []) + meta.get("false_alarms", []):
+        if pid in ALL_PIDS and pid not in props:
+            props.append(pid)
+    return props
 
 
 def has_variants(pid):
